@@ -39,6 +39,7 @@ func runC17(p *Program, r *Result) {
 	// ---- R17.1
 	r.Rule("R17.1", "a single process-creation site", 1)
 	var execCall ssa.CallInstruction
+	var execCalls []ssa.CallInstruction
 	n := 0
 	for _, fn := range p.Funcs {
 		for _, c := range callsIn(fn) {
@@ -47,11 +48,15 @@ func runC17(p *Program, r *Result) {
 				continue
 			}
 			n++
-			if fn == occ && execCall == nil {
-				execCall = c
+			if fn == occ {
+				// more than one site is fine (one per mode): R17.2 looks at the program of each
+				if execCall == nil {
+					execCall = c
+				}
+				execCalls = append(execCalls, c)
 				r.OK(fn.String(), "exec:"+short(name), r.pos(c), "the plugin client's process creation")
 			} else {
-				r.Bad(fn.String(), "exec:"+short(name), r.pos(c), "a process is started outside plugin.openClientConnection (or at a second site in it): its program name is not covered by the plugin-name validation")
+				r.Bad(fn.String(), "exec:"+short(name), r.pos(c), "a process is started outside plugin.openClientConnection: its program name is not covered by the plugin-name validation")
 			}
 		}
 	}
@@ -74,30 +79,38 @@ func runC17(p *Program, r *Result) {
 			bad = "too many paths"
 		}
 		for _, pa := range paths {
-			if !pathHas(pa, execCall.(ssa.Instruction)) {
-				continue
-			}
-			atoms := tb.pathAtoms(pa)
-			_, hookEmpty := findFact(atoms, func(a Atom) bool {
-				return a.Kind == "cmp" && a.Op == "==" && a.Y.S == "0" && short(a.X.String()) == "len(plugin.testOnlyPluginPath)"
-			})
-			if !hookEmpty {
-				continue // test mode
-			}
-			np++
-			idx := blockIndexOnPath(pa, execCall.Block())
-			arg := pa.ResolveAt(execCall.Common().Args[0], idx)
-			got := short(tb.Term(arg).String())
-			if got != `("age-plugin-" + P1)` {
-				bad = "on the production path the program argument is " + got + ", not \"age-plugin-\" + name"
+			for _, ec := range execCalls {
+				if !pathHas(pa, ec.(ssa.Instruction)) {
+					continue
+				}
+				atoms := tb.pathAtoms(pa)
+				_, hookEmpty := findFact(atoms, func(a Atom) bool {
+					return a.Kind == "cmp" && a.Op == "==" && a.Y.S == "0" && short(a.X.String()) == "len(plugin.testOnlyPluginPath)"
+				})
+				if !hookEmpty {
+					continue // test mode
+				}
+				np++
+				idx := blockIndexOnPath(pa, ec.Block())
+				arg := pa.ResolveAt(ec.Common().Args[0], idx)
+				got := short(tb.Term(arg).String())
+				if got != `("age-plugin-" + P1)` {
+					bad = "on the production path the program argument is " + got + ", not \"age-plugin-\" + name"
+				}
 			}
 		}
 		if np == 0 && bad == "" {
 			bad = "no path with an empty test hook reaches the process creation"
 		}
 		r.Check(bad == "", occ.String(), "exec:program", r.pos(execCall), "\"age-plugin-\"+name on every production path", bad)
-		name := calleeName(execCall.Common())
-		r.Check(strings.HasPrefix(name, "golang.org/x/sys/execabs.") || strings.HasPrefix(name, "os/exec."), occ.String(), "exec:lookup", r.pos(execCall), short(name)+" (PATH lookup that refuses relative results)", "process created through "+name+" without the PATH lookup")
+		okLookup, badName := true, ""
+		for _, ec := range execCalls {
+			name := calleeName(ec.Common())
+			if !(strings.HasPrefix(name, "golang.org/x/sys/execabs.") || strings.HasPrefix(name, "os/exec.")) {
+				okLookup, badName = false, name
+			}
+		}
+		r.Check(okLookup, occ.String(), "exec:lookup", r.pos(execCall), short(calleeName(execCall.Common()))+" (PATH lookup that refuses relative results)", "process created through "+badName+" without the PATH lookup")
 		// the hook is never assigned by production code
 		g := p.Global(pkgPlugin, "testOnlyPluginPath")
 		okh := g != nil
